@@ -76,7 +76,7 @@ func ProjectType(t cty.Type) J {
 
 // ---- numbers
 
-const qMax = 1 << 26
+const qMax = 1 << 16
 
 type landmark struct {
 	name string
@@ -168,6 +168,12 @@ func ProjectNum(f *big.Float) J {
 		}
 	}
 	r, _ := f.Rat(nil)
+	if r.Denom().IsInt64() && r.Num().IsInt64() {
+		n, d := r.Num().Int64(), r.Denom().Int64()
+		if n >= -4096 && n <= 4096 && d <= 4096 {
+			return J{"n": int(n), "d": int(d)}
+		}
+	}
 	return J{"dec": r.RatString()}
 }
 
@@ -219,12 +225,12 @@ func project(v cty.Value) J {
 	out["st"] = "k"
 	switch {
 	case ty == cty.Bool:
-		out["v"] = uv.True()
+		out["v"] = J{"b": uv.True()}
 	case ty == cty.Number:
 		out["v"] = ProjectNum(uv.AsBigFloat())
 	case ty == cty.String:
 		s := uv.AsString()
-		out["v"] = runes(s)
+		out["v"] = J{"s": runes(s)}
 		out["nfc"] = norm.NFC.IsNormalString(s)
 	case ty.IsListType() || ty.IsTupleType() || ty.IsSetType():
 		elems := []any{}
@@ -234,7 +240,7 @@ func project(v cty.Value) J {
 			elems = append(elems, project(ev))
 			n++
 		}
-		out["v"] = elems
+		out["v"] = J{"l": elems}
 		if l := uv.LengthInt(); l != n {
 			out["bad"] = fmt.Sprintf("LengthInt %d but iterator yields %d", l, n)
 		}
@@ -260,10 +266,10 @@ func project(v cty.Value) J {
 				}
 			}
 		}
-		out["v"] = m
+		out["v"] = J{"m": m}
 		out["nfc"] = nfc
 	case ty.IsCapsuleType():
-		out["v"] = fmt.Sprintf("%v", reflect.ValueOf(uv.EncapsulatedValue()).Elem().Interface())
+		out["v"] = J{"c": fmt.Sprintf("%v", reflect.ValueOf(uv.EncapsulatedValue()).Elem().Interface())}
 	default:
 		out["bad"] = "known value of type " + ty.GoString()
 	}
